@@ -3,6 +3,7 @@ import Tahoe.Base.Base32Lemmas
 import Tahoe.Base.Base62Lemmas
 import Tahoe.Base.Struct
 import Tahoe.Codec.LemmasUebCanon
+import Tahoe.Codec.LemmasUtf8
 import Tahoe.Codec.LemmasHeaders
 /-!
 C38 — on-disk and wire encodings round-trip (property theorems; the models and helper lemmas live in
@@ -27,18 +28,20 @@ tied to the Python function by `harness/props/c38.py`, including exception kinds
 | malformed base32 rejected              | `base32_exact` (decoder accepts exactly the image of the encoder), `base32_canonical` |
 | malformed base62 rejected              | `base62_exact`, `base62_canonical` |
 | malformed netstrings rejected          | `netstring_exact`, `netstring_canonical`, `netstring_split_canonical`, `netstring_split_canonical_trailer` (whole `split_netstring`), `netstring_prefix_free`, `netstring_concat_unique` |
-| malformed URI extension blocks rejected| `ueb_exact` (accepts exactly concatenations of canonical entries with distinct, colon-free, UTF-8 keys and well-typed values — in particular no trailing bytes, no block cut inside an entry), `ueb_canonical_pack` |
+| malformed URI extension blocks rejected| `utf8_accept_exact` (key bytes accepted iff they are the UTF-8 encoding of a string), `ueb_exact` (accepts exactly concatenations of canonical entries with distinct, colon-free, UTF-8 keys and well-typed values — in particular no trailing bytes, no block cut inside an entry), `ueb_canonical_pack` |
 | malformed lease records rejected       | `lease_immutable_exact`, `lease_mutable_exact`, `lease_immutable_canonical`, `lease_mutable_canonical` |
-| malformed share headers rejected       | `immutable_header_canonical` (+ `readImmHeader = none ↔ < 12 bytes`), `mutable_header_canonical`, `mutable_header_rejects_malformed` |
-| constants are the documented ones      | `base32_alphabet_pinned`, `base32_length_tables_pinned`, `base62_alphabet_pinned`, `struct_formats_pinned`, `record_sizes_pinned` |
+| malformed share headers rejected       | `immutable_header_canonical` (+ `readImmHeader = none ↔ < 12 bytes`), `mutable_header_canonical`, `mutable_magic_exact`, `mutable_header_accepted_iff` (accepted iff the full 32-byte magic is one of the schemas'), `mutable_header_rejects_malformed` |
+| constants are the documented ones      | `base32_alphabet_pinned`, `base32_length_tables_pinned`, `base62_alphabet_pinned`, `struct_formats_pinned`, `record_sizes_pinned`, `mutable_magic_pinned` |
 
 Where the statement is silent and nothing is claimed: the UEB decoder does not enforce key *order* nor the
 key pattern `[a-zA-Z_\-]+` (`ueb_exact` says precisely what it does enforce); the immutable header's
 second field is documented as unused and is saturated (`immutable_header_saturates`); `struct`'s `Ns`
 fields pad/truncate secrets of the wrong length, which is why every round trip carries the length guard
-(example after `lease_immutable_exact`).  Correspondence only (no theorem): Python's `int()` model
-`pyInt` and the `asIs` decoder variants (kept as documentation of the repaired defects; each has a
-`…_asis_counterexample`), UTF-8 validity `utf8Ok` against `str(key, "utf-8")`, and the `blake2b` hash.
+(example after `lease_immutable_exact`).  UTF-8 validity of UEB keys (`str(key, "utf-8")`) is no longer
+correspondence only: `utf8_accept_exact` proves the model's check accepts exactly the image of the UTF-8
+encoder.  Still correspondence only (no theorem): Python's `int()` model `pyInt` and the `asIs` decoder
+variants (not in the code any more — kept as documentation of the four repaired defects; each has a
+`…_asis_counterexample`), and the `blake2b` hash (an injectivity hypothesis in `lease_v2_decode_encode`).
 
 The decoders of the code before the four `fixes/C38-*.diff` repairs (`Netstring.split pyLen`,
 `Base32.a2b 1`, `Base62.a2b`, `Ueb.unpack asIs`) are modelled too; for each leniency a
@@ -302,6 +305,21 @@ example : Ueb.unpack Ueb.strict [99, 110, 58, 49, 58, 120, 44] = .ok [([99, 110]
     Ueb.unpack Ueb.strict [99, 110] = .error .value :=
   ⟨by decide, by decide, by decide, by decide, by decide⟩
 
+/-- **`str(key, "utf-8")` succeeds exactly on the image of the UTF-8 encoder**: the validity check of the
+    decoder accepts a byte string iff it is the encoding of a string of Unicode scalar values (no
+    surrogates, nothing above U+10FFFF, no overlong or truncated forms).  This gives the `KeyWire`
+    condition of `ueb_exact` its meaning: the key is colon-free and *is* the UTF-8 encoding of a string. -/
+theorem utf8_accept_exact (k : Bytes) :
+    Ueb.utf8Ok k.length k = true ↔ ∃ cs, (∀ c ∈ cs, Utf8.IsScalar c) ∧ Utf8.encStr cs = k :=
+  Utf8.utf8Ok_iff k
+
+-- "é€😀" encodes to c3 a9 e2 82 ac f0 9f 98 80; overlong `c0 80`, a lone surrogate `ed a0 80`, a value
+-- above U+10FFFF `f4 90 80 80` and a truncated sequence are rejected
+example : Utf8.encStr [233, 8364, 128512] = [195, 169, 226, 130, 172, 240, 159, 152, 128] ∧
+    Ueb.utf8Ok 9 [195, 169, 226, 130, 172, 240, 159, 152, 128] = true ∧
+    Ueb.utf8Ok 2 [192, 128] = false ∧ Ueb.utf8Ok 3 [237, 160, 128] = false ∧
+    Ueb.utf8Ok 4 [244, 144, 128, 128] = false ∧ Ueb.utf8Ok 2 [226, 130] = false := by decide
+
 /-- when the entries were read in key order and the keys match the documented pattern, the block is
     byte for byte what `pack_extension` produces for the decoded dictionary -/
 theorem ueb_canonical_pack (x : Bytes) (d : Ueb.Dict) (h : Ueb.unpack Ueb.strict x = .ok d)
@@ -519,6 +537,37 @@ example : ∃ file m n w dl elo, Records.readMutHeader file = .ok (m, n, w, dl, 
   obtain ⟨file, magic, _, _, h, _⟩ := Records.readMutHeader_mutHeader 1 (List.replicate 20 1) (List.replicate 32 2)
     (Or.inl rfl) (by decide) (by decide)
   exact ⟨file, magic, _, _, _, _, h⟩
+
+/-- **`schema_from_header` is exact**: version `v` is recognised iff the first 32 bytes equal, in full,
+    the magic of schema `v` — the readable line *and* the five anti-collision bytes; no other spelling of
+    the version number is accepted -/
+theorem mutable_magic_exact (h : Bytes) (v : Nat) :
+    Records.mutSchemaOf h = some v ↔
+      ((v = 1 ∧ h.take 32 = mut_MAGIC_v1) ∨ (v = 2 ∧ h.take 32 = mut_MAGIC_v2)) :=
+  Records.mutSchemaOf_iff h v
+
+-- damaged only in the last byte, or version written `01`: not recognised
+example : Records.mutSchemaOf mut_MAGIC_v1 = some 1 ∧
+    Records.mutSchemaOf (mut_MAGIC_v1.take 31 ++ [0]) = none ∧
+    Records.mutSchemaOf (mut_MAGIC_v1.take 25 ++ [48, 49, 10] ++ (mut_MAGIC_v1.drop 27).take 4) = none :=
+  ⟨by decide, by decide, by decide⟩
+
+/-- **the mutable header reader accepts exactly** the files with at least the 100 header bytes whose
+    first 32 bytes are one of the two magics in full -/
+theorem mutable_header_accepted_iff (file : Bytes) :
+    (∃ r, Records.readMutHeader file = .ok r) ↔
+      (100 ≤ file.length ∧ (file.take 32 = mut_MAGIC_v1 ∨ file.take 32 = mut_MAGIC_v2)) :=
+  Records.readMutHeader_accepts_iff file
+
+example : 100 ≤ (mut_MAGIC_v2 ++ List.replicate 68 0).length ∧
+    (mut_MAGIC_v2 ++ List.replicate 68 0).take 32 = mut_MAGIC_v2 := ⟨by decide, by decide⟩
+
+/-- the magics extracted from the source are the documented ones: the readable line
+    `Tahoe mutable container v<N>\n` followed by five bytes (for v1 the historical `75 09 44 03 8e`) -/
+theorem mutable_magic_pinned :
+    mut_MAGIC_v1 = ([84, 97, 104, 111, 101, 32, 109, 117, 116, 97, 98, 108, 101, 32, 99, 111, 110, 116, 97, 105, 110, 101, 114, 32, 118] : Bytes) ++ [49, 10, 117, 9, 68, 3, 142] ∧
+    mut_MAGIC_v2.take 27 = ([84, 97, 104, 111, 101, 32, 109, 117, 116, 97, 98, 108, 101, 32, 99, 111, 110, 116, 97, 105, 110, 101, 114, 32, 118] : Bytes) ++ [50, 10] ∧
+    mut_MAGIC_v1.length = 32 ∧ mut_MAGIC_v2.length = 32 ∧ mut_MAGIC_v1 ≠ mut_MAGIC_v2 := by decide
 
 /-- a header whose magic is not one of the known ones is rejected, as is a truncated one -/
 theorem mutable_header_rejects_malformed :
